@@ -18,6 +18,9 @@ CONFIGS = {
             "app:4,1,0,b,0,0+1,-"),
     # no applications at all, one peer without address
     "noapp": f"NODE host={HOST};realm={REALM};peer:peer1.x,{REALM},1,0,4,0,0,-,-,-,-",
+    # one application in both roles (auth and acct) next to an acct-only one
+    "both": (f"NODE host={HOST};realm={REALM};peer:peer1.x,{REALM},0,0,30,1,0,-,-,-,-;peer:peer2.x,{REALM},0,0,30,1,0,-,-,-,-;"
+             "app:4,1,1,b,0,0+1,-;app:3,0,1,b,0,0,-"),
     # retransmission window of 2
     "rq": f"NODE host={HOST};realm={REALM};rq=2;peer:peer1.x,{REALM},0,0,30,1,0,-,-,-,-;peer:peer2.x,{REALM},0,0,30,1,0,-,-,-,-;app:4,1,0,b,0,0+1,-",
 }
